@@ -73,7 +73,11 @@ struct OpRec
     struct TermF { int term; int64_t off; int64_t len; uint32_t seq; };
     std::vector<TermF> termfs;
     struct Lex { int64_t pos; int line; int col; int idx; int64_t len; uint32_t seq; int verbose; int64_t end_pos; int64_t inst_calls; int64_t inst_last; };
-    int64_t lexer_state_clobbered = 0;       // the lexer instance's own scratch member changed under a request
+    int64_t lexer_state_clobbered = 0;
+    // re-entrancy: at functor call #nest_at of this call, the NEXT op of the task is executed from inside the functor
+    int64_t nest_at = -1;
+    bool nest_fired = false;      // this call made the nested call
+    bool ran_nested = false;      // this call was made from inside a functor of the previous op       // the lexer instance's own scratch member changed under a request
     std::vector<Lex> lexes;
     int64_t ctx_foreign = 0, ctx_touches = 0;
     // value ledger
@@ -118,7 +122,9 @@ void adv(int64_t from, int64_t to);
 bool view(int64_t a, int64_t b);
 int64_t wr(const char* p, int64_t n);    // returns number of bytes accepted
 void termf(int term, const char* p, int64_t len);
-void red(int rule, uint64_t digest, uint64_t sdigest, int ctx);
+bool red(int rule, uint64_t digest, uint64_t sdigest, int ctx);   // true: make the nested call now (run_nested)
+void set_nest_callback(void (*cb)(void*, int task, int op), void* arg);
+void run_nested();
 void ctx_touch(const void* addr);
 LexAnswer lex(int64_t pos, int line, int col, bool verbose, int64_t end_pos, int64_t inst_calls = 0, int64_t inst_last = -1);
 void lexer_state_clobbered();
